@@ -191,6 +191,7 @@ class Check:
         self.events = 0
         self.known = [k for k in Q.load_known() if k["property"] == prop and k.get("status") == "known"]
         self.extra = {}
+        self.other = []
 
     def known_tags(self):
         return ",".join(sorted({k["tag"] for k in Q.load_known() if k.get("status") == "known" and k.get("tag")}))
@@ -228,8 +229,14 @@ class Check:
                     raise Q.ToolError(f"{name}: {why} (line {res.get('reached')})")
                 if p in unaccepted_props and p == self.prop:
                     self.report(res, p, f"{name}: {why}", "unexplained-read")
+                else:
+                    Q.log(f"  note: run {name} not accepted ({p}: {why[:160]}) - belongs to the {p} check")
+                    self.other.append((p, name))
             for v in Q.dedup_viols(res["viols"]):
-                if v["prop"] in props:
+                if v["prop"] == "C07" and isinstance(v["detail"], list) and v["detail"] and v["detail"][0] == "Panic" \
+                        and "PANIC" in props:
+                    v = dict(v, prop=self.prop)
+                if v["prop"] in props or v["prop"] == self.prop:
                     self.report(res, self.prop, f"{name} line {v['line']}: {v['prop']} {json.dumps(v['detail'])[:300]}",
                                 sig_of(self.prop, res, v))
             if len(self.samples) < 3:
@@ -382,7 +389,326 @@ def check_C06(chk):
                       BASE_ASSUME)
 
 
-CHECKS = {"C06": check_C06, "C04": check_C04, "C05": check_C05, "C01": check_C01, "C02": check_C02, "C03": check_C03, "C16": check_C16}
+U64 = (1 << 64) - 1
+
+
+def arg_values(cls_off, cls_len, geo, rng):
+    """concrete (offset, length) for an abstract case of GenArgs.tla"""
+    bs = 1 << geo["bsb"]
+    cs = 1 << geo["cb"]
+    vs = (geo["vclusters"] << geo["cb"]) - geo.get("size_minus_sectors", 0) * 512
+    off = {
+        "zero": 0, "one_block": bs, "unaligned_small": rng.choice([1, 7, bs // 2]),
+        "unaligned_mid": cs * rng.randrange(1, 4) + rng.choice([1, bs - 1, bs + 7]),
+        "cluster_start": cs * rng.randrange(1, geo["vclusters"] - 1),
+        "cluster_minus_block": cs * rng.randrange(1, geo["vclusters"] - 1) - bs,
+        "last_block": vs // bs * bs - bs if vs % bs == 0 else vs // bs * bs,
+        "end_minus_1": vs - 1, "end": vs, "end_plus_1": vs + 1, "end_plus_block": vs + bs,
+        "huge": rng.choice([1 << 40, (1 << 62) + bs, 1 << 63]), "max_minus_block": U64 - bs + 1,
+        "max_minus_1": U64 - 1, "max": U64,
+    }[cls_off]
+    to_cl_end = cs - off % cs
+    ln = {
+        "zero": 0, "one": 1, "block_minus_1": bs - 1, "block": bs, "block_plus_1": bs + 1, "two_blocks": 2 * bs,
+        "to_cluster_end": to_cl_end, "cluster": cs, "cluster_plus_block": cs + bs,
+        "to_end": max(0, vs - off) if off <= vs else bs, "to_end_plus_block": (max(0, vs - off) if off <= vs else bs) + bs,
+        "big": (1 << 20) + rng.choice([0, bs, 1]), "max": U64,
+    }[cls_len]
+    ln = min(ln, 4 << 20) if cls_len != "max" else ln
+    return off, ln
+
+
+def check_C13(chk):
+    cases, gen, dist = Q.tlc_enumerate("GenArgs.tla")
+    rng = random.Random(chk.seed)
+    G = S.geoms(chk.tier)
+    geos = [("G1", 0), ("G3c", 0), ("G2k", 1), ("G3b", 0)] if chk.tier == "quick" else \
+        [("G1", 0), ("G2", 0), ("G2", 1), ("G2k", 0), ("G2k", 1), ("G3a", 0), ("G3a", 1), ("G3a", 7), ("G3b", 0), ("G3c", 0), ("G3c", 2), ("G6", 0)]
+    scens = fam_regress()
+    per = 28
+    reps = 1 if chk.tier == "quick" else 3
+    ncase = 0
+    for gname, minus in geos:
+        geo = dict(G[gname], vclusters=16, size_minus_sectors=minus)
+        for mode in ("rw", "ro", "backing"):
+            ops = []
+            for rep in range(reps):
+                cs_ = list(cases)
+                rng.shuffle(cs_)
+                for op, oc, lc in cs_:
+                    off, ln = arg_values(oc, lc, geo, rng)
+                    ops.append({"op": {"read": "read_raw", "write": "write_raw", "discard": "discard_raw"}[op],
+                                "off": str(off), "len": str(ln)})
+            ncase += len(ops)
+            for k in range(0, len(ops), per):
+                steps = []
+                if mode != "ro":
+                    steps += [{"op": "write", "gb": 0, "n": 3}, {"op": "write", "gb": (geo["vclusters"] - 1) << (geo["cb"] - geo["bsb"]), "n": 1}]
+                for o in ops[k:k + per]:
+                    steps += [o, {"op": "sweep"}]
+                steps += [{"op": "flush"}, {"op": "sweep"}] if mode != "ro" else []
+                images = [S.image_shaped(rng, geo, 1, frac=0.4, kinds=("data", "zero"), size_minus_sectors=minus)]
+                if mode == "backing":
+                    images.append(S.image_shaped(rng, geo, 2, frac=0.6, kinds=("data",)))
+                scens.append(S.mk(f"c13-{gname}-{minus}-{mode}-{k}", geo, images, steps, top_ro=(mode == "ro")))
+    res, st = Q.run_batch(scens, chk.wd, known=chk.known_tags(), par=14)
+    chk.consume(res, st, props=("C13", "PANIC"))
+    chk.stats["states"] += gen
+    chk.nontrivial = set(json.dumps(c) for c in cases)
+    chk.extra.update(dict(exhaustive=True, argument_classes=len(cases), concrete_cases=ncase))
+    return chk.finish("model_checking",
+                      "spec/GenArgs.tla enumerates the full product op x offset class x length class (exhaustive over classes); every class is "
+                      "instantiated with concrete u64 values per geometry (block sizes 512-4096, virtual size aligned and unaligned) on writable, "
+                      "read-only and backing-chain devices; Validate.tla decides the admissible result from the measured classes; Inv_C13 also "
+                      "forbids modifying requests during rejected calls; the sweep after every case checks that guest content is unchanged",
+                      BASE_ASSUME + ["metadata-unchanged clause is checked through guest content and the absence of W/P requests only"])
+
+
+def check_C10(chk):
+    """COW merges correctly; read-only sources are never written"""
+    n = 60 if chk.tier == "quick" else 800
+    rng = random.Random(chk.seed * 31 + 10)
+    G = S.geoms(chk.tier)
+    scens = fam_backing(chk.tier, chk.seed, "c10", n, 18)
+    # targeted: partial / straddling writes over every backing-provided and compressed cluster
+    names = ["G1", "G2", "G2k", "G3a", "G3c", "G6", "G4"]
+    for i in range(n // 2):
+        geo = G[names[i % len(names)]]
+        bpc = 1 << (geo["cb"] - geo["bsb"])
+        vc = min(geo["vclusters"], 40)
+        geo = dict(geo, vclusters=vc)
+        top = S.image_shaped(rng, geo, 1, frac=0.5, kinds=("comp", "comp", "data", "zero"))
+        images = [top]
+        for d in range(rng.choice([1, 1, 2])):
+            images.append(S.image_shaped(rng, geo, 2 + d, frac=0.7, kinds=("data", "zero"),
+                                         vclusters=vc + rng.choice([0, -vc // 3, 6])))
+        steps = []
+        order = list(range(vc))
+        rng.shuffle(order)
+        for g in order[:rng.randrange(6, 14)]:
+            off = rng.randrange(bpc)
+            ln = rng.choice([1, bpc - off, bpc - off + 1, bpc])
+            gb = g * bpc + off
+            ln = max(1, min(ln, vc * bpc - gb))
+            steps.append({"op": "write", "gb": gb, "n": ln})
+            r = rng.random()
+            if r < 0.3:
+                steps.append({"op": "sweep"})
+            elif r < 0.45:
+                steps.append({"op": "flush"})
+            elif r < 0.55:
+                steps.append({"op": "discard", "gb": g * bpc, "n": bpc})
+            elif r < 0.62:
+                steps += [{"op": "flush"}, {"op": "reopen"}]
+            elif r < 0.7:
+                steps.append({"op": "shrink"})
+        steps += [{"op": "sweep"}, {"op": "flush"}, {"op": "sweep"}, {"op": "reopen"}, {"op": "sweep"}]
+        scens.append(S.mk(f"c10t-{i}", geo, images, steps))
+    scens += fam_regress()
+    res, st = Q.run_batch(scens, chk.wd, known=chk.known_tags(), par=14)
+    chk.consume(res, st, props=("C10", "C01", "C02", "C03", "PANIC"))
+    nontrivial_seq(chk, res)
+    return chk.finish("model_checking",
+                      "partial/straddling writes over backing-provided and compressed clusters (chains of depth 1-3, backing shorter/longer than the top), "
+                      "mixed with reads, discards, flushes, reopen; FlatDisk initial content comes from the builder's ground truth of the chain; Inv_C10 "
+                      "forbids any non-read request on read-only devices; exact release of compressed clusters = Inv_C03 after flush",
+                      BASE_ASSUME)
+
+
+def check_C11(chk):
+    """discard contract"""
+    n = 50 if chk.tier == "quick" else 600
+    rng = random.Random(chk.seed * 31 + 11)
+    G = S.geoms(chk.tier)
+    names = ["G1", "G2", "G2k", "G3a", "G3c", "G6"]
+    scens = []
+    for i in range(n):
+        geo = G[names[i % len(names)]]
+        vc = min(geo["vclusters"], 32)
+        geo = dict(geo, vclusters=vc)
+        bs, cs = 1 << geo["bsb"], 1 << geo["cb"]
+        bpc = cs // bs
+        backing = i % 2 == 1
+        images = [S.image_shaped(rng, geo, 1, frac=0.6, kinds=("data", "data", "zero", "zero_prealloc", "comp"))]
+        if backing:
+            images.append(S.image_shaped(rng, geo, 2, frac=0.8, kinds=("data",), vclusters=vc + rng.choice([0, -8, 8])))
+        steps = [{"op": "write", "gb": rng.randrange(vc * bpc), "n": 1} for _ in range(rng.randrange(0, 4))]
+        vs = vc * cs
+        for k in range(rng.randrange(5, 12)):
+            r = rng.random()
+            if r < 0.55:
+                c0 = rng.randrange(vc)
+                off = c0 * cs + rng.choice([0, 0, bs, cs - bs, 1, cs // 2 + 3])
+                ln = rng.choice([cs, 2 * cs, cs + bs, cs - bs, 3 * cs + 1, 0, bs])
+            elif r < 0.7:
+                off, ln = rng.choice([(0, vs), (0, U64), (vs - cs, 2 * cs), (vs, cs), (vs + 1, U64 - vs - 1), (U64, 1), (U64 - 5, U64),
+                                      (cs // 2, vs)])
+            else:
+                off, ln = rng.randrange(vs), rng.randrange(4 * cs)
+            steps.append({"op": "discard_raw", "off": str(off), "len": str(ln)})
+            steps.append({"op": "sweep"})
+            if rng.random() < 0.3:
+                gb = rng.randrange(vc * bpc)
+                steps.append({"op": "write", "gb": gb, "n": min(rng.randrange(1, 2 * bpc + 1), vc * bpc - gb)})
+            if rng.random() < 0.3:
+                steps.append({"op": "flush"})
+        steps += [{"op": "flush"}, {"op": "sweep"}, {"op": "reopen"}, {"op": "sweep"}]
+        scens.append(S.mk(f"c11-{i}", geo, images, steps))
+    scens += fam_regress()
+    res, st = Q.run_batch(scens, chk.wd, known=chk.known_tags(), par=14)
+    chk.consume(res, st, props=("C11", "C01", "C02", "C03", "C07", "PANIC"))
+    nontrivial_seq(chk, res)
+    return chk.finish("model_checking",
+                      "discard(offset, len) over classes (aligned, unaligned, zero length, straddling, beyond the end, u64::MAX neighbourhood) x cluster "
+                      "states (data, zero, preallocated zero, compressed, backing-provided, unallocated) x with/without backing; the FlatDisk model applies "
+                      "C11 by cluster kind (ApplyCur/ApplyKind); sweeps after every discard, Inv_C03 after flush (space released), reopen sweep",
+                      BASE_ASSUME)
+
+
+def check_C12(chk):
+    """metadata growth"""
+    rng = random.Random(chk.seed * 31 + 12)
+    G = S.geoms(chk.tier)
+    scens = []
+    n = 10 if chk.tier == "quick" else 80
+    for i in range(n):
+        kind = i % 3
+        if kind == 0:
+            # new refblocks: 64-bit refcounts, 512-byte clusters -> 64 clusters per refblock
+            geo = dict(G["G4"], vclusters=rng.choice([200, 260]))
+            images = [S.image_shaped(rng, geo, 1, frac=rng.choice([0.0, 0.25]), kinds=("data", "zero"))]
+            nw = 50 if chk.tier == "quick" else 120
+        elif kind == 1:
+            # fewer L1 entries in the header than the virtual size needs
+            geo = dict(G[rng.choice(["G1", "G2"])])
+            need = -(-geo["vclusters"] // ((1 << geo["cb"]) // 8))
+            images = [S.image_shaped(rng, geo, 1, frac=0.1, kinds=("data", "zero"), l1_entries=rng.randrange(1, need + 1))]
+            nw = 20
+        else:
+            # refblock slices + allocator across slice boundaries
+            geo = dict(cb=12, ro=6, bsb=9, vclusters=100, params={"l2": [9, 1024], "rb": [9, 1024]})
+            images = [S.image_plain(geo, "build", shuffle=rng.randrange(1 << 20))]
+            nw = 40
+        bpc = 1 << (geo["cb"] - geo["bsb"])
+        steps = []
+        for k in range(nw):
+            c = rng.randrange(geo["vclusters"])
+            ncl = rng.choice([1, 1, 1, 2, 3, 5])
+            gb = c * bpc + rng.randrange(bpc)
+            ln = max(1, min(ncl * bpc, geo["vclusters"] * bpc - gb))
+            steps.append({"op": "write", "gb": gb, "n": ln})
+            r = rng.random()
+            if r < 0.08:
+                steps.append({"op": "flush"})
+            elif r < 0.14:
+                steps.append({"op": "discard", "gb": c * bpc, "n": bpc * rng.randrange(1, 4)})
+            elif r < 0.17:
+                steps += [{"op": "flush"}, {"op": "reopen"}]
+        steps += [{"op": "sweep"}, {"op": "flush"}, {"op": "sweep"}, {"op": "reopen"}, {"op": "sweep"}]
+        scens.append(S.mk(f"c12-{kind}-{i}", geo, images, steps))
+    scens += fam_regress()
+    res, st = Q.run_batch(scens, chk.wd, mode="crash", known=chk.known_tags(), par=14)
+    chk.consume(res, st, props=("C12", "C01", "C02", "C03", "C04", "C05", "C07", "PANIC"))
+    nontrivial_seq(chk, res)
+    return chk.finish("model_checking",
+                      "histories that cross refblock capacity (64-bit refcounts, 512-byte clusters: 64 clusters per refblock), use images whose header "
+                      "lists fewer L1 entries than the virtual size needs, and allocate across refblock-slice boundaries; C01-C05 invariants incl. crash "
+                      "branching are evaluated on them; writes must return Ok (Inv_C07b)",
+                      BASE_ASSUME + ["refcount-table growth/relocation (needs > 4096 host clusters with the smallest geometry) is covered only in the thorough tier"])
+
+
+def check_C17(chk):
+    """backend faults: one run per backend request index of each history"""
+    rng = random.Random(chk.seed * 31 + 17)
+    G = S.geoms(chk.tier)
+    nh = 6 if chk.tier == "quick" else 60
+    scens = []
+    names = ["G1", "G2", "G4", "G2k", "G3a"]
+    for h in range(nh):
+        geo = G[names[h % len(names)]]
+        bpc = 1 << (geo["cb"] - geo["bsb"])
+        backing = h % 3 == 2
+        images = [S.image_shaped(rng, geo, 1, frac=0.2, kinds=("data", "zero", "comp") if backing else ("data", "zero"))]
+        if backing:
+            images.append(S.image_shaped(rng, geo, 2, frac=0.6, kinds=("data",)))
+        pre = S.seq_history(rng, geo, 4, sweep_every=0, final=False,
+                            weights=dict(write=60, discard=10, flush=20, read=0, shrink=5, reopen=0, fsync=0, check=0))
+        # the faulted section: 3 operations
+        ops = S.seq_history(rng, geo, 3, sweep_every=0, final=False,
+                            weights=dict(write=55, discard=15, flush=20, read=5, shrink=5, reopen=0, fsync=0, check=0))
+        tail = [{"op": "recover", "retries": 4}, {"op": "sweep"}, {"op": "flush"}, {"op": "reopen"}, {"op": "sweep"}]
+        nfault = 26 if chk.tier == "quick" else 40
+        for k in range(nfault):
+            steps = list(pre) + [{"op": "fail_next", "nth": k, "partial": k % 3 == 2}] + list(ops) + [{"op": "flush"}] + tail
+            scens.append(S.mk(f"c17-{h}-f{k}", geo, images, steps))
+        # a window in which every request fails
+        steps = list(pre) + [{"op": "fail_all", "on": True}] + list(ops) + [{"op": "flush"}] + tail
+        scens.append(S.mk(f"c17-{h}-all", geo, images, steps))
+        # hole punching unsupported: must fall back to zero writes
+        scens.append(S.mk(f"c17-{h}-nopunch", geo, images, list(pre) + list(ops) + [{"op": "sweep"}, {"op": "flush"}, {"op": "reopen"}, {"op": "sweep"}],
+                          punch_unsupported=True))
+    res, st = Q.run_batch(scens, chk.wd, known=chk.known_tags(), par=14)
+    chk.consume(res, st, props=("C17", "C07", "C01", "PANIC"))
+    nf = sum(r["summary"].get("faults", 0) for r in res.values())
+    for name, r in res.items():
+        if r["summary"].get("faults", 0) > 0:
+            chk.nontrivial.add(name)
+    chk.extra["faults_injected"] = nf
+    return chk.finish("fault_enumeration",
+                      "for each history one run per backend request index (read, write, punch, fsync; every third a partial write), one run with "
+                      "every request failing, one with hole punching unsupported; then faults off, flush_meta retried until Ok, sweep, reopen, sweep. "
+                      "TLC: a failed call may or may not have taken effect per block (cur becomes a set), Inv_C07a (no panic/hang), Inv_C07b (Err only "
+                      "when a fault hit the call), Inv_C17 (after recovery Safe and every acknowledged write readable); non-trivial = run in which a "
+                      "fault was actually injected",
+                      BASE_ASSUME + ["a failed write has no effect or a prefix of its blocks is applied (both simulated)"])
+
+
+def check_C07(chk):
+    """progress: no deadlock, livelock or spurious failure"""
+    n = 200 if chk.tier == "quick" else 4000
+    scens = fam_conc(chk.tier, chk.seed, "c07", n, groups=3, maxops=5)
+    scens += fam_conc(chk.tier, chk.seed, "c07b", n // 4, backing=True, groups=2, maxops=4)
+    scens += fam_regress()
+    res, st = Q.run_batch(scens, chk.wd, known=chk.known_tags(), par=14)
+    chk.consume(res, st, props=("C07", "PANIC"))
+    for name, r in res.items():
+        if r["summary"].get("max_conc", 0) >= 2:
+            chk.nontrivial.add(json.dumps(r["summary"].get("sched")))
+    chk.extra["schedules"] = len(chk.nontrivial)
+    return chk.finish("model_checking",
+                      "groups of 2-5 overlapping calls (writes to same/sibling slices and clusters, reads, discards, flush_meta, shrink_caches) with "
+                      "2-slice caches under seeded random/PCT schedules; the executor reports deadlock (unfinished tasks, nothing runnable, nothing in "
+                      "flight) and livelock (step budget); Inv_C07a/b on the trace",
+                      BASE_ASSUME)
+
+
+def check_C18(chk):
+    """need_flush_meta() == false implies file and memory agree"""
+    n = 160 if chk.tier == "quick" else 3000
+    scens = fam_conc(chk.tier, chk.seed, "c18", n, groups=3, maxops=4)
+    for s in scens:
+        s["sample_flag"] = True
+        # make sure flush/shrink overlap the writers
+        for st_ in s["steps"]:
+            if st_.get("op") == "par" and not any(o["op"] in ("flush", "shrink") for o in st_["ops"]):
+                st_["ops"].insert(len(st_["ops"]) // 2, {"op": "flush"})
+    seqs = fam_seq(chk.tier, chk.seed, "c18s", 20 if chk.tier == "quick" else 200, 20, sweep_every=5)
+    for s in seqs:
+        s["sample_flag"] = True
+    scens += seqs
+    res, st = Q.run_batch(scens, chk.wd, known=chk.known_tags(), par=14)
+    chk.consume(res, st, props=("C18",))
+    for name, r in res.items():
+        if r["summary"].get("max_conc", 0) >= 2:
+            chk.nontrivial.add(json.dumps(r["summary"].get("sched")))
+    return chk.finish("model_checking",
+                      "need_flush_meta() sampled by the executor after every scheduler step (recorded on change); Inv_C18 at every quiescent point "
+                      "with the flag clear: the spec's reader on the visible file gives the FlatDisk content and the image is safe; schedules overlap "
+                      "writers/discarders with flush_meta/shrink_caches",
+                      BASE_ASSUME)
+
+
+CHECKS = {"C10": check_C10, "C11": check_C11, "C12": check_C12, "C17": check_C17, "C07": check_C07, "C18": check_C18, "C13": check_C13, "C06": check_C06, "C04": check_C04, "C05": check_C05, "C01": check_C01, "C02": check_C02, "C03": check_C03, "C16": check_C16}
 
 
 def main():
